@@ -34,8 +34,12 @@ type Update struct {
 	Svc     int    `json:"svc"`
 	CfgID   int    `json:"cfg_id,omitempty"`  // config: distinguishes configurations (connect timeout in ms)
 	Invalid bool   `json:"invalid,omitempty"` // config: fails Validate
-	Added   []EP   `json:"added,omitempty"`
-	Removed []EP   `json:"removed,omitempty"`
+	// Unbuildable: the configuration passes Validate but no processor can be built from it (the builder refuses it, as
+	// for a protocol without a registered builder or a listener that cannot be set up); like Invalid it stands for "no
+	// usable configuration yet" and is only generated as the first configuration of a service
+	Unbuildable bool `json:"unbuildable,omitempty"`
+	Added       []EP `json:"added,omitempty"`
+	Removed     []EP `json:"removed,omitempty"`
 }
 
 type EP struct {
@@ -89,8 +93,14 @@ func mkCfg(u Update, svc int) *service.Config {
 	if u.Invalid {
 		c.Listener = nil // fails Validate: listener is required
 	}
+	if u.Unbuildable {
+		it = c08UnbuildableMark
+	}
 	return c
 }
+
+// c08UnbuildableMark: idle timeout that makes the recording builder refuse a configuration
+const c08UnbuildableMark = 61 * time.Second
 
 func genEPs(r *simhook.Rand, naddr, max int) []EP {
 	var out []EP
@@ -129,6 +139,9 @@ func (p c08) Gen(r *simhook.Rand, tier string, idx int) harness.Scenario {
 			// an invalid configuration only as the first one of a service (later corrected by a valid one)
 			if !cfgSeen[u.Svc] && r.Chance(1, 3) {
 				u.Invalid = true
+				if r.Chance(1, 3) {
+					u.Invalid, u.Unbuildable = false, true
+				}
 			}
 			cfgSeen[u.Svc] = true
 		default:
@@ -151,6 +164,7 @@ func (p c08) Gen(r *simhook.Rand, tier string, idx int) harness.Scenario {
 		sc.Concurrent = true
 		sc.Class = "concurrent-streams"
 		for i := range sc.History {
+			sc.History[i].Unbuildable = false
 			sc.History[i].Invalid = false // what an invalid configuration means next to racing updates is not specified
 		}
 	}
@@ -199,6 +213,9 @@ func (recBuilder) Build(params proc.BuildParams) (proc.Proc, error) {
 	reg := curRegistry
 	if reg == nil {
 		return nil, fmt.Errorf("no recording registry installed")
+	}
+	if it := params.Cfg.GetIdleTimeout(); it != nil && *it == c08UnbuildableMark {
+		return nil, fmt.Errorf("scripted: no processor can be built from this configuration")
 	}
 	p := &recProc{name: params.Name, cfg: params.Cfg, hosts: map[string]host.Type{}, reg: reg}
 	for _, h := range params.Hosts {
@@ -283,8 +300,15 @@ func foldHistory(sc *C08Scenario) map[int]*mSvc {
 			delete(m, u.Svc)
 		case "config":
 			if s != nil {
-				if u.Invalid && s.cfg != nil && !s.cfg.Invalid {
+				if (u.Invalid || u.Unbuildable) && s.cfg != nil && !s.cfg.Invalid {
 					s.unjudged = true
+				}
+				if u.Unbuildable {
+					// no processor can exist for it: in the reference it counts like a configuration that is not valid
+					cp := u
+					cp.Invalid = true
+					s.cfg = &cp
+					continue
 				}
 				s.cfg = &sc.History[i]
 			}
@@ -534,6 +558,9 @@ func storeView(c *config.Config) (map[int]*mSvc, error) {
 		m := &mSvc{eps: map[int]bool{}, epBackup: map[int]bool{}, known: sv.Endpoints != nil}
 		if sv.Config != nil {
 			u := &Update{Invalid: sv.Config.Validate() != nil}
+			if it := sv.Config.GetIdleTimeout(); it != nil && *it == c08UnbuildableMark {
+				u.Invalid = true
+			}
 			if ct := sv.Config.GetConnectTimeout(); ct != nil {
 				u.CfgID = int(*ct/time.Millisecond) - 1
 			}
@@ -582,6 +609,9 @@ func describeHistory(sc *C08Scenario) string {
 			inv := ""
 			if u.Invalid {
 				inv = " INVALID"
+			}
+			if u.Unbuildable {
+				inv = " UNBUILDABLE"
 			}
 			parts = append(parts, fmt.Sprintf("config(%d cfg%d%s)", u.Svc, u.CfgID, inv))
 		case "endpoints":
